@@ -157,6 +157,8 @@ pub enum StmFilter {
     /// zlib container with stored (uncompressed) deflate blocks, written from the specification
     FlateStored,
     AsciiHex,
+    /// LZW as standard encoders write it (weezl, /EarlyChange 1)
+    Lzw,
 }
 
 #[derive(Clone, Debug, PartialEq)]
@@ -176,7 +178,9 @@ pub enum XrefStyle {
     Classic { cuts: Vec<u32> },
     /// cross-reference stream with object number `num`; `w` field widths (w[0] may be 0 when every
     /// entry of this section is in-use-uncompressed); `cuts` split /Index runs; `filter` on the data
-    Stream { num: u32, w: [usize; 3], cuts: Vec<u32>, filter: StmFilter },
+    /// `predictor` (0 = none; 2, 10..=15) is applied to the rows before a Flate or LZW filter, with
+    /// /DecodeParms << /Predictor p /Columns (w0+w1+w2) >>
+    Stream { num: u32, w: [usize; 3], cuts: Vec<u32>, filter: StmFilter, predictor: u8 },
 }
 
 #[derive(Clone, Debug, PartialEq)]
@@ -333,7 +337,97 @@ pub fn apply_filter(f: StmFilter, data: &[u8]) -> (Vec<u8>, Option<&'static str>
         StmFilter::None => (data.to_vec(), None),
         StmFilter::FlateStored => (zlib_stored(data), Some("FlateDecode")),
         StmFilter::AsciiHex => (ascii_hex(data), Some("ASCIIHexDecode")),
+        StmFilter::Lzw => (lzw(data, true), Some("LZWDecode")),
     }
+}
+
+/// Predictor encoding of `data` in rows of `row` bytes (one colour, 8 bits per component):
+/// 2 = TIFF horizontal differencing; 10..=14 = PNG None / Sub / Up / Average / Paeth on every row;
+/// 15 = PNG "optimum": the five PNG filters in rotation. `data.len()` is a multiple of `row`.
+pub fn predict(data: &[u8], row: usize, predictor: u8) -> Vec<u8> {
+    assert!(row > 0 && data.len() % row == 0);
+    let mut out = vec![];
+    let zero = vec![0u8; row];
+    for (k, cur) in data.chunks(row).enumerate() {
+        let prev: &[u8] = if k == 0 { &zero } else { &data[(k - 1) * row..k * row] };
+        if predictor == 2 {
+            for i in 0..row {
+                out.push(cur[i].wrapping_sub(if i > 0 { cur[i - 1] } else { 0 }));
+            }
+            continue;
+        }
+        let tag = if predictor == 15 { (k % 5) as u8 } else { predictor - 10 };
+        out.push(tag);
+        for i in 0..row {
+            let a = if i > 0 { cur[i - 1] } else { 0 } as i32;
+            let b = prev[i] as i32;
+            let c = if i > 0 { prev[i - 1] } else { 0 } as i32;
+            let pred = match tag {
+                0 => 0,
+                1 => a,
+                2 => b,
+                3 => (a + b) / 2,
+                _ => {
+                    let p = a + b - c;
+                    let (pa, pb, pc) = ((p - a).abs(), (p - b).abs(), (p - c).abs());
+                    if pa <= pb && pa <= pc {
+                        a
+                    } else if pb <= pc {
+                        b
+                    } else {
+                        c
+                    }
+                }
+            };
+            out.push(cur[i].wrapping_sub(pred as u8));
+        }
+    }
+    out
+}
+
+/// Inverse of `predict` (for the strict reader).
+pub fn unpredict(data: &[u8], row: usize, predictor: u8) -> Option<Vec<u8>> {
+    let mut out: Vec<u8> = vec![];
+    let step = if predictor == 2 { row } else { row + 1 };
+    if row == 0 || data.len() % step != 0 {
+        return None;
+    }
+    for (k, chunk) in data.chunks(step).enumerate() {
+        let start = out.len();
+        if predictor == 2 {
+            for i in 0..row {
+                let a = if i > 0 { out[start + i - 1] } else { 0 };
+                out.push(chunk[i].wrapping_add(a));
+            }
+            continue;
+        }
+        let tag = chunk[0];
+        for i in 0..row {
+            let a = if i > 0 { out[start + i - 1] } else { 0 } as i32;
+            let b = if k > 0 { out[start - row + i] } else { 0 } as i32;
+            let c = if k > 0 && i > 0 { out[start - row + i - 1] } else { 0 } as i32;
+            let pred = match tag {
+                0 => 0,
+                1 => a,
+                2 => b,
+                3 => (a + b) / 2,
+                4 => {
+                    let p = a + b - c;
+                    let (pa, pb, pc) = ((p - a).abs(), (p - b).abs(), (p - c).abs());
+                    if pa <= pb && pa <= pc {
+                        a
+                    } else if pb <= pc {
+                        b
+                    } else {
+                        c
+                    }
+                }
+                _ => return None,
+            };
+            out.push(chunk[1 + i].wrapping_add(pred as u8));
+        }
+    }
+    Some(out)
 }
 
 fn write_stream_obj(out: &mut Vec<u8>, dict: &Dict, data: &[u8], len_ref: Option<u32>) {
@@ -519,7 +613,7 @@ pub fn write_doc(spec: &DocSpec) -> Written {
                 write_dict(&mut out, &tr);
                 out.push(b'\n');
             }
-            XrefStyle::Stream { num, w, cuts, filter } => {
+            XrefStyle::Stream { num, w, cuts, filter, predictor } => {
                 entries.insert(*num, Entry::InUse { off: xref_off, gen: 0 });
                 let nums: Vec<u32> = entries.keys().cloned().collect();
                 let rs = runs(&nums, cuts);
@@ -541,6 +635,11 @@ pub fn write_doc(spec: &DocSpec) -> Written {
                         data.extend_from_slice(&val.to_be_bytes()[8 - width..]);
                     }
                 }
+                let row = w[0] + w[1] + w[2];
+                let use_predictor = *predictor != 0 && matches!(filter, StmFilter::FlateStored | StmFilter::Lzw) && row > 0;
+                if use_predictor {
+                    data = predict(&data, row, *predictor);
+                }
                 let (enc, fname) = apply_filter(*filter, &data);
                 let mut d: Dict = vec![("Type".into(), Val::name("XRef"))];
                 d.extend(tr.iter().cloned());
@@ -551,6 +650,9 @@ pub fn write_doc(spec: &DocSpec) -> Written {
                 }
                 if let Some(f) = fname {
                     d.push(("Filter".into(), Val::name(f)));
+                }
+                if use_predictor {
+                    d.push(("DecodeParms".into(), Val::dict(vec![("Predictor", Val::Int(*predictor as i64)), ("Columns", Val::Int(row as i64))])));
                 }
                 apply_overrides(&mut d);
                 out.extend_from_slice(format!("{} 0 obj\n", num).as_bytes());
@@ -695,7 +797,7 @@ pub fn strict_read(bytes: &[u8], spec: &DocSpec, k: usize) -> Result<BTreeMap<u3
                 let limit = find_from(tail, 0, b"startxref").ok_or("no startxref after trailer")?;
                 prev = find_from(&tail[..limit], 0, b"/Prev ").and_then(|i| read_uint(tail, i + 6)).map(|x| x.0);
             }
-            XrefStyle::Stream { num, w, filter, .. } => {
+            XrefStyle::Stream { num, w, filter, predictor, .. } => {
                 let (n, q1) = read_uint(bytes, p).ok_or("xref stream obj number")?;
                 if n as u32 != *num {
                     return Err(format!("xref stream object number {} != {}", n, num));
@@ -714,7 +816,14 @@ pub fn strict_read(bytes: &[u8], spec: &DocSpec, k: usize) -> Result<BTreeMap<u3
                     StmFilter::None => raw.to_vec(),
                     StmFilter::AsciiHex => unhex(std::str::from_utf8(raw).map_err(|_| "hex")?.replace(['\n', '>'], "").as_str()).ok_or("hex")?,
                     StmFilter::FlateStored => unstored(raw).ok_or("stored zlib")?,
+                    StmFilter::Lzw => {
+                        let mut o = vec![];
+                        weezl::decode::Decoder::with_tiff_size_switch(weezl::BitOrder::Msb, 8).into_stream(&mut o).decode_all(raw).status.map_err(|_| "lzw")?;
+                        o
+                    }
                 };
+                let row = w[0] + w[1] + w[2];
+                let data = if *predictor != 0 && matches!(filter, StmFilter::FlateStored | StmFilter::Lzw) && row > 0 { unpredict(&data, row, *predictor).ok_or("predictor")? } else { data };
                 let size = geti(b"/Size ").ok_or("size")?;
                 let index: Vec<u64> = match find_from(head, 0, b"/Index [") {
                     Some(i) => {
@@ -842,6 +951,7 @@ fn filter_name(f: StmFilter) -> &'static str {
         StmFilter::None => "none",
         StmFilter::FlateStored => "flate_stored",
         StmFilter::AsciiHex => "ascii_hex",
+        StmFilter::Lzw => "lzw",
     }
 }
 fn filter_from(s: &str) -> Option<StmFilter> {
@@ -849,6 +959,7 @@ fn filter_from(s: &str) -> Option<StmFilter> {
         "none" => StmFilter::None,
         "flate_stored" => StmFilter::FlateStored,
         "ascii_hex" => StmFilter::AsciiHex,
+        "lzw" => StmFilter::Lzw,
         _ => return None,
     })
 }
@@ -872,7 +983,7 @@ impl DocSpec {
                 let objstms: Vec<J> = r.objstms.iter().map(|o| json!({ "num": o.num, "filter": filter_name(o.filter), "trailing_ws": o.trailing_ws, "stale_first": o.stale_first })).collect();
                 let style = match &r.style {
                     XrefStyle::Classic { cuts } => json!({ "classic": { "cuts": cuts } }),
-                    XrefStyle::Stream { num, w, cuts, filter } => json!({ "stream": { "num": num, "w": w, "cuts": cuts, "filter": filter_name(*filter) } }),
+                    XrefStyle::Stream { num, w, cuts, filter, predictor } => json!({ "stream": { "num": num, "w": w, "cuts": cuts, "filter": filter_name(*filter), "predictor": predictor } }),
                 };
                 json!({ "slots": slots, "objstms": objstms, "style": style, "size": r.size, "root": r.root.to_json(), "trailer": dict_to_json(&r.trailer), "overrides": dict_to_json(&r.overrides) })
             })
@@ -912,6 +1023,7 @@ impl DocSpec {
                     w: [w.get(0)?.as_u64()? as usize, w.get(1)?.as_u64()? as usize, w.get(2)?.as_u64()? as usize],
                     cuts: cuts(s)?,
                     filter: filter_from(s.get("filter")?.as_str()?)?,
+                    predictor: s.get("predictor").and_then(|x| x.as_u64()).unwrap_or(0) as u8,
                 }
             };
             revisions.push(Revision {
@@ -998,7 +1110,7 @@ impl Builder {
         let style = if use_stream_xref {
             let num = next;
             next += 1;
-            XrefStyle::Stream { num, w: [1, 3, 2], cuts: vec![], filter: layout.xref_filter }
+            XrefStyle::Stream { num, w: [1, 3, 2], cuts: vec![], filter: layout.xref_filter, predictor: 0 }
         } else {
             XrefStyle::Classic { cuts: vec![] }
         };
